@@ -1614,7 +1614,9 @@ fc_statements = [
         # Used with in, out, inout
         # C pointer -> void pointer -> C++ pointer
         name="c_struct",
+        c_cxx_local_var=None,
         cxx_cxx_local_var="pointer", # cxx_local_var only used with C++
+        c_pre_call=[],
         cxx_pre_call=[
             "{c_const}{cxx_type} * {cxx_var} = \tstatic_cast<{c_const}{cxx_type} *>\t(static_cast<{c_const}void *>(\t{c_addr}{c_var}));",
         ],
@@ -1623,6 +1625,7 @@ fc_statements = [
         name="c_struct_result",
         # C++ pointer -> void pointer -> C pointer
         c_local_var="pointer",
+        c_post_call=[],
         cxx_post_call=[
             "{c_const}{c_type} * {c_var} = \tstatic_cast<{c_const}{c_type} *>(\tstatic_cast<{c_const}void *>(\t{cxx_addr}{cxx_var}));",
         ],
